@@ -473,6 +473,35 @@ def r7(rr, repo):
             governed = any((pol and is_running_test(t, True)) or (not pol and is_running_test(t, False)) for t, pol in q.guards_of(u, stop=em))
         rr.ob('the heartbeat facets (self.facets) are read only where the event being built is known to be a RUNNING event', governed, lm, u,
               witness=U(q.enclosing_stmt(u))[:120], key='terminal-payload-not-heartbeat')
+    # the terminal events are emitted WITHOUT facets (emit_stop / emit_complete pass none): the payload has to tolerate None, `dict(None)` raises inside the try/except
+    pay = [n for n in walk_scope(em) if isinstance(n, ast.Assign) and isinstance(n.value, ast.Call) and U(n.value.func) == 'dict' and len(n.value.args) == 1]
+    for n in pay:
+        a = n.value.args[0]
+        tolerant = (isinstance(a, ast.BoolOp) and isinstance(a.op, ast.Or) and isinstance(a.values[-1], ast.Dict) and not a.values[-1].keys) or \
+            (isinstance(a, ast.IfExp) and any(isinstance(x, ast.Dict) and not x.keys for x in (a.body, a.orelse)))
+        bare = isinstance(a, ast.Name)
+        if tolerant or bare:
+            rr.ob('the payload of an event that is given no facets (every terminal event) is an empty mapping, not dict(None)', tolerant, lm, n, witness=U(n.value)[:60], key='payload-tolerates-none')
+        else:
+            rr.unresolved('the payload of an event is built in a way this rule does not know', lm, n, witness=U(n.value)[:60], key='payload-tolerates-none')
+    # events go out unless reporting is switched off: the client.emit call sits under `not <OPENLINEAGE_DISABLED is true>`, not under its negation
+    emits = [c for c in q.calls_in(em) if U(c.func) == 'self.client.emit']
+    rr.floor('client.emit calls in _emit_event', len(emits), 1, lm, em)
+    for c in emits:
+        g = [(t, pol) for t, pol in q.guards_of(c, stop=em) if 'OPENLINEAGE_DISABLED' in U(t)]
+        okd = False
+        for t, pol in g:
+            inner, neg = (t.operand, True) if isinstance(t, ast.UnaryOp) and isinstance(t.op, ast.Not) else (t, False)
+            if isinstance(inner, ast.Compare) and len(inner.ops) == 1 and isinstance(inner.ops[0], (ast.In, ast.NotIn)):
+                lits = {q.const_str(e) for e in getattr(inner.comparators[0], 'elts', [])}
+                truthy = {'true', '1'} <= lits
+                disabled_test = isinstance(inner.ops[0], ast.In)            # `<value> in ('true', '1')` means "disabled"
+                says_disabled = disabled_test != neg                         # after an outer `not`
+                okd = truthy and (pol != says_disabled)                      # the emit sits on the branch where it is NOT disabled
+        if g:
+            rr.ob("an event is handed to the client exactly when reporting is not switched off (OPENLINEAGE_DISABLED not 'true' / '1')", okd, lm, c, witness=' && '.join(('' if pol else 'not ') + U(t)[:100] for t, pol in g), key='emit-unless-disabled')
+        else:
+            rr.unresolved('_emit_event no longer tests OPENLINEAGE_DISABLED around client.emit', lm, c, key='emit-unless-disabled')
     _, mk = repo.find(f'{LIN}::create_openfilter_facet_with_fields')
     fcalls = [c for c in q.calls_in(mk) if U(c.func) == 'field']
     dyn = [c for c in fcalls if any(isinstance(x, ast.Name) and x.id == 'v' for k in c.keywords for x in ast.walk(k.value))]
